@@ -289,6 +289,48 @@ PURE = {"deepcopy", "copy", "len", "sorted", "list", "dict", "tuple", "set", "fr
 SECTION_OF_LIST = {"inputs": "in", "outputs": "out"}
 
 
+def _immutable_type(tp):
+    import types
+    import typing
+    if tp in (type(None), bytes, int, str, bool, float):
+        return True
+    origin = typing.get_origin(tp)
+    if origin is typing.Literal:
+        return True
+    if origin in (typing.Union, types.UnionType):
+        return all(_immutable_type(a) for a in typing.get_args(tp))
+    if origin is tuple:
+        return all(_immutable_type(a) for a in typing.get_args(tp) if a is not Ellipsis)
+    if dataclasses.is_dataclass(tp) and isinstance(tp, type):
+        return bool(tp.__dataclass_params__.frozen) and all(
+            _immutable_type(t) for t in _hints(tp).values())
+    return False
+
+
+_HINTS = {}
+
+
+def _hints(cls):
+    import typing
+    if cls not in _HINTS:
+        _HINTS[cls] = {}            # cycles
+        try:
+            _HINTS[cls] = typing.get_type_hints(cls)
+        except Exception:  # noqa: BLE001 - unresolved forward references: treated as unknown (mutable)
+            _HINTS[cls] = {}
+    return _HINTS[cls]
+
+
+def _strip_optional(tp):
+    import types
+    import typing
+    if typing.get_origin(tp) in (typing.Union, types.UnionType):
+        args = [a for a in typing.get_args(tp) if a is not type(None)]
+        if len(args) == 1:
+            return args[0]
+    return tp
+
+
 class _Stores:
     """attributes of a psbt (section `glob`) / of its input maps (`in`) / output maps (`out`) that a role may store
     to, following local aliases (`x = psbt.inputs[i]`, `for x in psbt.inputs`, `p = deepcopy(psbt)`) and calls to
@@ -299,17 +341,47 @@ class _Stores:
         self.done = set()
         self.depth = 0
         self.valenv = {}
+        self.valtype = {}
+        self.ret = {}
+        self.cls = {"in": MI.PsbtIn, "out": MO.PsbtOut, "glob": M.Psbt}
         e = MI.PsbtIn(check_validity=False)
         o = MO.PsbtOut(check_validity=False)
         g = M.Psbt(2, [], [], 2, {}, check_validity=False)
-        self.immutable = {
-            "in": {f.name for f in dataclasses.fields(e) if isinstance(getattr(e, f.name), (bytes, int))
-                   or f.name in ("sig_hash_type", "output_index", "sequence", "required_time_lock_time",
-                                 "required_height_lock_time")},
-            "out": {f.name for f in dataclasses.fields(o) if isinstance(getattr(o, f.name), (bytes, int))
-                    or f.name in ("amount", "sp_v0_label")},
-            "glob": {f.name for f in dataclasses.fields(g) if isinstance(getattr(g, f.name), (bytes, int))
-                     or f.name in ("fallback_lock_time", "tx_modifiable", "signed_message")}}
+        self.immutable = {sec: {n for n, t in _hints(c).items() if _immutable_type(t)}
+                          for sec, c in (("in", MI.PsbtIn), ("out", MO.PsbtOut), ("glob", M.Psbt))}
+
+    def type_of(self, e, env):
+        """static type of an expression rooted at a tracked object, from the dataclasses' own annotations"""
+        import typing
+        sec = self.classify(e, env)
+        if sec:
+            return self.cls[sec]
+        if isinstance(e, ast.Name):
+            return self.valtype.get(e.id)
+        if isinstance(e, ast.Attribute):
+            bt = self.type_of(e.value, env)
+            bt = _strip_optional(bt) if bt is not None else None
+            if isinstance(bt, type) and dataclasses.is_dataclass(bt):
+                return _hints(bt).get(e.attr)
+            return None
+        if isinstance(e, ast.Subscript):
+            bt = self.type_of(e.value, env)
+            bt = _strip_optional(bt) if bt is not None else None
+            origin, args = typing.get_origin(bt), typing.get_args(bt)
+            if origin in (list, tuple) and args:
+                return args[0] if origin is list or (len(args) == 2 and args[1] is Ellipsis) else None
+            if origin is dict and len(args) == 2:
+                return args[1]
+            return None
+        return None
+
+    def root_attr(self, e, env):
+        """(section, attr) of the tracked field an Attribute/Subscript chain starts at"""
+        while isinstance(e, (ast.Attribute, ast.Subscript)):
+            if isinstance(e, ast.Attribute) and self.classify(e.value, env):
+                return self.classify(e.value, env), e.attr
+            e = e.value
+        return None
 
     def classify(self, e, env):
         if isinstance(e, ast.Name):
@@ -398,11 +470,46 @@ class _Stores:
         """set of (section, attr) when the expression IS (one of) the mutable value(s) of tracked fields, else None"""
         if isinstance(e, ast.Name) and e.id in self.valenv:
             return set(self.valenv[e.id])
-        if isinstance(e, ast.Attribute) and self.classify(e.value, env):
-            sec = self.classify(e.value, env)
-            if e.attr in self.immutable[sec] or e.attr in READ_MEMBERS:
+
+        if isinstance(e, (ast.Attribute, ast.Subscript)):
+            root = self.root_attr(e, env)
+            if root:
+                sec, attr = root
+                if attr in READ_MEMBERS:
+                    return None
+                t = self.type_of(e, env)
+                if t is not None and _immutable_type(t):
+                    return None                       # bytes, an int, a frozen TxOut …: nothing to write through
+                return {(sec, attr)}
+            if isinstance(e, ast.Subscript) or isinstance(e, ast.Attribute):
+                inner = e.value
+                while isinstance(inner, (ast.Attribute, ast.Subscript)):
+                    inner = inner.value
+                if isinstance(inner, ast.Name) and inner.id in self.valenv:
+                    return set(self.valenv[inner.id])     # a part of an aliased value
+            return None
+        if isinstance(e, ast.Call) and isinstance(e.func, ast.Name) and inspect.isfunction(getattr(M, e.func.id, None)) \
+                and getattr(M, e.func.id).__module__ == M.__name__ and e.func.id != "_clear_finalized":
+            target = getattr(M, e.func.id)
+            names = [a.arg for a in _fdef(target).args.args]
+            secs = {}
+            for pos, a in enumerate(e.args):
+                if self.classify(a, env) and pos < len(names):
+                    secs[names[pos]] = self.classify(a, env)
+            for k in e.keywords:
+                if self.classify(k.value, env):
+                    secs[k.arg] = self.classify(k.value, env)
+            if not secs:
                 return None
-            return {(sec, e.attr)}
+            key = (target.__qualname__, tuple(sorted(secs.items())))
+            if key not in self.ret:
+                saved = (self.valenv, self.valtype, self.depth)
+                self.depth += 1
+                try:
+                    self.run(target, secs)
+                finally:
+                    self.valenv, self.valtype, self.depth = saved
+            return set(self.ret.get(key, set())) or None
         if isinstance(e, ast.Call) and getattr(e.func, "id", "") == "cast" and len(e.args) == 2:
             return self.value_of(e.args[1], env)
         if isinstance(e, ast.Call) and getattr(e.func, "id", "") == "getattr" and e.args \
@@ -420,6 +527,24 @@ class _Stores:
             return self.value_of(e.value, env)
         return None
 
+    def bind_pattern(self, target, tp, attrs):
+        """bind the names of a (nested) target to the parts of a value of static type `tp` that can be written through"""
+        import typing
+        if isinstance(target, ast.Name):
+            if not _immutable_type(tp):
+                self.valenv.setdefault(target.id, set()).update(attrs)
+                self.valtype[target.id] = tp
+            return
+        if isinstance(target, (ast.Tuple, ast.List)):
+            args = typing.get_args(tp) if typing.get_origin(tp) is tuple else ()
+            if len(args) == len(target.elts) and Ellipsis not in args:
+                for t, a in zip(target.elts, args):
+                    self.bind_pattern(t, a, attrs)
+                return
+            for n in ast.walk(target):
+                if isinstance(n, ast.Name):
+                    self.valenv.setdefault(n.id, set()).update(attrs)
+
     def bind_value(self, target, value, env, where, elementwise=False):
         """record `target` as an alias when `value` is (or iterates over) mutable values of tracked fields"""
         if elementwise and isinstance(value, (ast.Tuple, ast.List)):
@@ -427,13 +552,28 @@ class _Stores:
             vs = [v for v in vs if v]
             got = set().union(*vs) if vs else None
         elif elementwise:
+            import typing
             got = None
-            v = self.value_of(value, env)
-            if v:   # iterating over a mutable field: the elements (lists in a dict's values …) may be mutable parts
+            cont, how = value, "iter"
+            if isinstance(value, ast.Call) and isinstance(value.func, ast.Attribute) \
+                    and value.func.attr in ("values", "items", "keys"):
+                cont, how = value.func.value, value.func.attr
+            v = self.value_of(cont, env)
+            if v:   # the elements of a mutable field may be mutable parts of it (the lists in a dict's values …)
+                ct = self.type_of(cont, env)
+                ct = _strip_optional(ct) if ct is not None else None
+                origin, args = typing.get_origin(ct), typing.get_args(ct)
+                et = None
+                if origin is dict and len(args) == 2:
+                    et = {"iter": args[0], "keys": args[0], "values": args[1]}.get(how)
+                    if how == "items":
+                        et = tuple[args[0], args[1]]
+                elif origin in (list, tuple, set, frozenset) and args and how == "iter":
+                    et = args[0]
+                if et is not None:
+                    self.bind_pattern(target, et, v)
+                    return
                 got = v
-            elif isinstance(value, ast.Call) and isinstance(value.func, ast.Attribute) \
-                    and value.func.attr in ("values", "items") and self.value_of(value.func.value, env):
-                got = self.value_of(value.func.value, env)
         else:
             got = self.value_of(value, env)
         if not got:
@@ -457,7 +597,9 @@ class _Stores:
         self.untracked_ok = set(untracked_ok) | getattr(self, "untracked_ok", set())
         env = {a.arg: param_secs[a.arg] for a in f.args.args + f.args.kwonlyargs if a.arg in param_secs}
         saved_valenv = getattr(self, "valenv", {})
+        saved_valtype = getattr(self, "valtype", {})
         self.valenv = {}
+        self.valtype = {}
         for _ in range(2):              # twice: an alias of an alias, whatever the order ast.walk meets them in
             for st in ast.walk(f):
                 if isinstance(st, ast.Assign):
@@ -492,10 +634,15 @@ class _Stores:
                     self.store_target(t, env, where)
             elif isinstance(n, ast.Call):
                 self.call(n, env, where)
-            elif isinstance(n, (ast.Return, ast.Yield)) and n.value is not None and self.value_of(n.value, env) \
-                    and self.depth > 0:
-                raise ValueError(f"{where}: returns the mutable value `{ast.unparse(n.value)}` to its caller")
+            elif isinstance(n, (ast.Return, ast.Yield)) and n.value is not None:
+                parts = n.value.elts if isinstance(n.value, ast.Tuple) else [n.value]
+                for x in parts:
+                    v = self.value_of(x, env)
+                    if v:
+                        self.ret.setdefault(key, set()).update(v)
+        self.ret.setdefault(key, set())
         self.valenv = saved_valenv
+        self.valtype = saved_valtype
 
     def call(self, c, env, where):
         fname = c.func.id if isinstance(c.func, ast.Name) else c.func.attr if isinstance(c.func, ast.Attribute) else None
